@@ -82,6 +82,7 @@ def run(ck):
             # collector for its hint again (C01.R5, instantiated) -- none is dropped for what it said before
             from rules import C01
             C01.r5(ck, F, rid="C19.R4")
+            C01.rebuild_unconditional(ck, rid="C19.R4")      # ... and publishes what it computed on every path, std and no_std
 
 
 # ------------------------------------------------------------------ R1
